@@ -35,7 +35,8 @@ fn is_err(si: usize, k: usize, len: usize) -> bool {
 }
 
 fn case_json(lens: &[usize], strategy: usize, seed: u64) -> Value {
-    json!({"lengths": lens, "strategy": STRATEGIES[strategy].1, "seed": seed, "error_items": ERR_PATTERNS[ERR_PATTERN.load(std::sync::atomic::Ordering::Relaxed)]})
+    json!({"lengths": lens, "strategy": STRATEGIES[strategy].1, "seed": seed, "error_items": ERR_PATTERNS[ERR_PATTERN.load(std::sync::atomic::Ordering::Relaxed)],
+           "sources_announce_half_their_length": UNDER_REPORT.load(std::sync::atomic::Ordering::Relaxed) == 1})
 }
 
 /// what one `next()` returned: the item's (input, target) or the error text, and the source tag
@@ -50,7 +51,37 @@ struct Trace {
     calls: u64,
 }
 
+/// 1: every source with at least two items announces (`ExactSizeIterator::len`) only half of them --
+/// the generator treats the announced length as a minimum (a weight, a non-emptiness test), what a
+/// source holds is what it yields
+static UNDER_REPORT: std::sync::atomic::AtomicUsize = std::sync::atomic::AtomicUsize::new(0);
+
+struct Announced {
+    inner: std::vec::IntoIter<MaybeTrainData>,
+    announce: usize,
+}
+
+impl Iterator for Announced {
+    type Item = MaybeTrainData;
+    fn next(&mut self) -> Option<MaybeTrainData> {
+        self.inner.next()
+    }
+    fn size_hint(&self) -> (usize, Option<usize>) {
+        (self.announce, Some(self.announce))
+    }
+}
+
+impl ExactSizeIterator for Announced {
+    fn len(&self) -> usize {
+        self.announce
+    }
+}
+
 fn source(si: usize, len: usize) -> TrainDataGenerator {
+    if UNDER_REPORT.load(std::sync::atomic::Ordering::Relaxed) == 1 && len >= 2 {
+        let v: Vec<MaybeTrainData> = (0..len).map(|k| Ok(TrainData::new(format!("s{si}i{k}"), Some(format!("t{si}i{k}"))))).collect();
+        return Box::new(Announced { inner: v.into_iter(), announce: len / 2 });
+    }
     let v: Vec<MaybeTrainData> =
         (0..len).map(|k| if is_err(si, k, len) { Err(anyhow::anyhow!("es{si}i{k}")) } else { Ok(TrainData::new(format!("s{si}i{k}"), Some(format!("t{si}i{k}")))) }).collect();
     Box::new(v.into_iter())
@@ -255,6 +286,7 @@ fn main() {
     let mut run = Run::from_env("C07");
     if let Some(c) = run.replay_case() {
         let lens: Vec<usize> = c["lengths"].as_array().unwrap().iter().map(|x| x.as_u64().unwrap() as usize).collect();
+        UNDER_REPORT.store(usize::from(c["sources_announce_half_their_length"].as_bool().unwrap_or(false)), std::sync::atomic::Ordering::Relaxed);
         ERR_PATTERN.store(c["error_items"].as_str().and_then(|n| ERR_PATTERNS.iter().position(|p| *p == n)).unwrap_or(0), std::sync::atomic::Ordering::Relaxed);
         // a violated determinism clause may show only with some probability: repeat (16 times at most)
         for _ in 0..16 {
@@ -348,6 +380,24 @@ fn main() {
                 }
             }
             ERR_PATTERN.store(0, std::sync::atomic::Ordering::Relaxed);
+        }
+    }
+    // sources that hold more items than they announce: every small length vector x strategy x two seeds
+    {
+        let long_units = tu_verif::enumerate::threshold_lengths(run.pick(8, 10)).len();
+        let many_units = tu_verif::enumerate::threshold_lengths(run.pick(6, 8)).len();
+        let small: Vec<Vec<usize>> = sequences(run.pick(4, 5), 3).into_iter().filter(|v| !v.is_empty()).collect();
+        run.bounds.insert("under_reporting_sources_phase".into(), json!(format!("{} length vectors (1..=3 sources of 0..={} items; a source of n >= 2 items announces n / 2) x every strategy x seeds {{0, 1}}", small.len(), run.pick(3, 4))));
+        if run.unit((nunits + long_units + many_units + ERR_PATTERNS.len()) as u64) {
+            UNDER_REPORT.store(1, std::sync::atomic::Ordering::Relaxed);
+            for lens in &small {
+                for strategy in 0..STRATEGIES.len() {
+                    for seed in [0u64, 1] {
+                        check(&mut run, lens, strategy, seed);
+                    }
+                }
+            }
+            UNDER_REPORT.store(0, std::sync::atomic::Ordering::Relaxed);
         }
     }
     let mut orders: Vec<Vec<usize>> = vec![];
